@@ -2,7 +2,7 @@ CFG = dict(
     theorems=["C15.nfa_accepts_iff_lang", "C15.compileNode_correct", "C15.pattern_tree_lang", "C15.emitted_match_valid",
               "C15.skip_past_last_row_disjoint", "C15.match_starts_increasing", "C15.match_number_sequential",
               "C15.flush_emits_accepting", "C15.cep_partition_isolation", "C15.valid_match_explored",
-              "C15.cep_complete_longest", "C15.facts_cep"],
+              "C15.cep_complete_longest", "C15.reference_matcher_exact", "C15.reference_matcher_sound", "C15.facts_cep"],
     lean_modules=["SsqlVerif.Props.C15", "SsqlVerif.Audit.C15"],
     rule="one case = one query (pattern tree over <= 4 variables from the quantifier's grammar incl. PERMUTE, groups, {n,m}, "
          "reluctant variants and shapes Compile rejects; DEFINE over the current row, PREV and one aggregate, with forced or "
@@ -10,10 +10,11 @@ CFG = dict(
          "over 1-3 partitions, run on cep.Engine directly (observables per Process/Flush) or through SQL (Execute/Emit/Stop); "
          "distinct = distinct (cfg, op list)",
     unproved=[
-        "C15.reference_matcher_exact : the executable reference matcher the oracle runs (Spec.matchesFrom / Spec.walk, brute force "
-        "by recursion on the pattern) enumerates exactly the valid matches of the declarative definition (Spec.ValidMatch = word of "
-        "Spec.Lang + DEFINE + WITHIN). Stated in Props/C15.lean as a `def … : Prop`; NOT proved. The proved theorems speak about "
-        "Spec.ValidMatch; the run-time oracle (a search over generated (pattern, stream) pairs) uses Spec.walk.",
+        "C15.reference_pruning_complete : the oracle's reference matcher is run with a pruned state key (variables no DEFINE "
+        "condition looks back at are collapsed, to keep the brute force polynomial); that this pruning loses no match length is "
+        "stated as a `def … : Prop` and NOT proved. Proved: exactness for the unpruned key (reference_matcher_exact) and soundness "
+        "for every key (reference_matcher_sound), so a `valid` verdict is always right; a missed longer/omitted match by the oracle "
+        "would need the pruning to be wrong. The oracle is a search; the completeness claim itself is theorem cep_complete_longest.",
         "reluctant mode: only validity, SKIP/MATCH_NUMBER discipline and isolation are proved (they hold for both modes); "
         "shortest-match / completeness is neither claimed by the code nor proved.",
     ],
@@ -46,5 +47,5 @@ META = dict(
     note="Trusted: Lean kernel; hand-written model (tied by correspondence, not verified); harness, hook cep/verif_hooks_c15.go, "
          "driver-side DEFINE/MEASURES evaluators. Three defects found by the check and fixed in the repo (per-partition sequence "
          "numbers; accepted-but-extendable run kept as candidate; emitGreedy waits for earlier live starts). Guards (maxRuns, "
-         "capPending, LRU, sweeper) outside the model; the reference matcher of the oracle is not proved equal to the declarative spec.",
+         "capPending, LRU, sweeper) outside the model; the oracle's reference matcher is proved exact for the unpruned state key and sound for the pruned one it runs with.",
 )
